@@ -184,6 +184,11 @@ EXTRA_SEEDS += [
 
 
 # work that must not be proportional to the numeric value of a literal
+EXTRA_SEEDS += [
+    "{{ '%99999999999s' | t }}{{ '%(a)99999999999s' | gettext: a: 1 }}", "{% assign m = '%99999999999d' %}{{ m | ngettext: m, 2 }}",
+    "{{ '%*s' | t }}{{ '%.99999999999f' | t }}{{ '%c' | t }}{{ '%(a' | t }}",
+]
+
 DECIMAL_CASES = [
     {"template": "{% if (1..5) contains x %}y{% endif %}{% if x in (1..5) %}y{% endif %}{{ x | plus: 1 }}{{ x | round }}"
                  "{{ x | abs }}{% for i in (1..x) limit: 1 %}{{ i }}{% endfor %}{{ nums[x] }}{{ x | at_most: 2 }}",
